@@ -833,6 +833,11 @@ func ints(xs []int) string {
 	return strings.Join(s, ",")
 }
 
+// observeState: keys, links, reverse index, active set – everything that is READ from the table.
+func (w *world) observeState() string {
+	return fmt.Sprintf("K %s L %s R %s A %s", ints(w.keys()), numSortJoin(w.links()), numSortJoin(w.refs()), ints(w.active()))
+}
+
 func (w *world) observe(seq bool, ret string, evs []ev) string {
 	return fmt.Sprintf("%s K %s L %s R %s A %s E %s", ret, ints(w.keys()), numSortJoin(w.links()), numSortJoin(w.refs()),
 		ints(w.active()), showEvents(seq, evs))
